@@ -1471,6 +1471,10 @@ func (g *Generator) generateEmailValidator(gf *protogen.GeneratedFile) {
 func (g *Generator) generateDateTimeValidators(gf *protogen.GeneratedFile) {
 	gf.P("// validateDateTimeFormat validates RFC3339 date-time format")
 	gf.P("func validateDateTimeFormat(value string) error {")
+	gf.P("// time.Parse also accepts a one-digit hour (2024-01-15T9:30:00Z), which RFC 3339 does not")
+	gf.P("if len(value) > 13 && value[13] != ':' {")
+	gf.P(`return fmt.Errorf("invalid date-time format, expected RFC3339: hour must have two digits")`)
+	gf.P("}")
 	gf.P("_, err := time.Parse(time.RFC3339, value)")
 	gf.P("if err != nil {")
 	gf.P(`return fmt.Errorf("invalid date-time format, expected RFC3339: %w", err)`)
@@ -1491,6 +1495,10 @@ func (g *Generator) generateDateTimeValidators(gf *protogen.GeneratedFile) {
 
 	gf.P("// validateTimeFormat validates time format (HH:MM:SS)")
 	gf.P("func validateTimeFormat(value string) error {")
+	gf.P("// time.Parse also accepts a one-digit hour (9:30:00), which the format does not allow")
+	gf.P("if len(value) > 2 && value[2] != ':' {")
+	gf.P(`return fmt.Errorf("invalid time format, expected HH:MM:SS: hour must have two digits")`)
+	gf.P("}")
 	gf.P("_, err := time.Parse(\"15:04:05\", value)")
 	gf.P("if err != nil {")
 	gf.P("// OpenAPI's time format is an RFC 3339 full-time, which carries a UTC offset")
